@@ -20,7 +20,7 @@ A_IR = 'A-ir (IR values are finite and acyclic; matcher contracts quantify over 
 A_SMT = 'A-smt (z3 5.1 / cvc5 1.0.3 answer unsat only when true)'
 A_RE = 'A-re (CPython re accepts exactly the translated language of the patterns involved)'
 OPAQUE_NOTE = ('contracts assumed, not yet discharged by pyvc (their bodies are covered only by the bounded tier): normalize_value, split_namespace, create_fake_parent, '
-               'get_descendants (iframe-skipping walk), match_dir; '
+               'get_descendants (iframe-skipping walk); '
                ' termination of the mutual recursion through sub-lists rests on A-ir')
 
 ALL_HTML = ['basic', 'nows', 'multiroot', 'forms', 'ranges', 'lang', 'dir', 'iframe', 'text', 'attrs', 'identical']
@@ -53,7 +53,7 @@ def validate_bs4(ctx):
 
 CACHE = [M + 'match_default', N + 'get_tag_descendants', 'lemma.C04_cache_snoc_base', 'lemma.C04_cache_snoc_step']
 LANG = [M + 'match_lang', 'lemma.C04_lang_snoc_base', 'lemma.C04_lang_snoc_step']
-A_SINGLE = ('A-bs4-single (language, http-equiv and content attributes hold one string, as every shipped tree builder stores them: '
+A_SINGLE = ('A-bs4-single (lang, http-equiv, content, dir, type and value attributes hold one string, as every shipped tree builder stores them: '
             'a builder configured with multi_valued_attributes for them is outside the domain)')
 
 INDET = [M + 'match_indeterminate', M + 'match_indeterminate.get_parent_form', 'lemma.C04_indet_snoc_base', 'lemma.C04_indet_snoc_step',
@@ -67,3 +67,7 @@ A_INDET = ('match_indeterminate assumes that the element asking is not itself a 
 def indet_structural(ctx):
     from pyvc import structural
     return structural.C17_indet_guard(ctx)
+
+DIRFN = [M + 'match_dir', M + 'find_bidi']
+A_BIDI = ('unicodedata.bidirectional is an uninterpreted total function of the character (bidi_class); finite trees: a node is strictly lower than its parent '
+          '(height), which bounds the recursive descent of find_bidi')
